@@ -18,8 +18,9 @@ import (
 //
 // DirectUDPClient implements [zerocopy.UDPClient].
 type DirectUDPClient struct {
-	info    zerocopy.UDPClientSessionInfo
-	session zerocopy.UDPClientSession
+	info          zerocopy.UDPClientSessionInfo
+	network       string
+	maxPacketSize int
 }
 
 // NewDirectUDPClient creates a new UDP client that makes no changes to the packets.
@@ -30,12 +31,8 @@ func NewDirectUDPClient(name, network string, mtu int, listenConfig conn.ListenC
 			MTU:          mtu,
 			ListenConfig: listenConfig,
 		},
-		session: zerocopy.UDPClientSession{
-			MaxPacketSize: zerocopy.MaxPacketSizeForAddr(mtu, netip.IPv4Unspecified()),
-			Packer:        NewDirectPacketClientPacker(network, mtu),
-			Unpacker:      DirectPacketClientUnpacker{},
-			Close:         zerocopy.NoopClose,
-		},
+		network:       network,
+		maxPacketSize: zerocopy.MaxPacketSizeForAddr(mtu, netip.IPv4Unspecified()),
 	}
 }
 
@@ -47,8 +44,16 @@ func (c *DirectUDPClient) Info() zerocopy.UDPClientInfo {
 }
 
 // NewSession implements [zerocopy.UDPClient.NewSession].
+//
+// Each session gets its own packer, because the packer's domain resolution cache
+// is not safe for concurrent use by multiple sessions.
 func (c *DirectUDPClient) NewSession(ctx context.Context) (zerocopy.UDPClientSessionInfo, zerocopy.UDPClientSession, error) {
-	return c.info, c.session, nil
+	return c.info, zerocopy.UDPClientSession{
+		MaxPacketSize: c.maxPacketSize,
+		Packer:        NewDirectPacketClientPacker(c.network, c.info.MTU),
+		Unpacker:      DirectPacketClientUnpacker{},
+		Close:         zerocopy.NoopClose,
+	}, nil
 }
 
 // ShadowsocksNoneUDPClient is a Shadowsocks none UDP client.
